@@ -917,6 +917,9 @@ class Compiler:
                 if m:
                     ent = f(m)
                     break
+        if ent is None and s.words[0] == "echo" and not s.redirs and "$(" not in text and s.decl is None:
+            # a message to stdout (the terminal or compile.log): its wording has no meaning for the model
+            ent = ('.nop "echo"', None, None)
         if ent is None:
             self.err(s.line, "command not understood: %r" % text)
         cmd, need, new = ent
@@ -1241,6 +1244,9 @@ def wrapper_cmds(path, name):
         if isinstance(node, Simple):
             t = node.text()
             k = WRAPPER_OK[name].get(t)
+            if k is None and node.words and node.words[0] in ("msg", "echo") and "$(" not in t \
+                    and all(r == ">&2" for r in node.redirs):
+                k = "echo"
             if k is None:
                 raise ShgenError("%s line %d: command not understood: %r" % (name, node.line, t))
             out.append((node.line, k))
